@@ -23,7 +23,7 @@ META = dict(
         "REAL theory: floats are exact reals",
         "tolerance band at cell faces when sampling at a symbolic point (as C01)",
         "source-field resampling: concrete geometry (non-commensurate with the target), symbolic values",
-        "quick tier, 2-d line sampling: symbolic origin and end points, concrete anisotropic edge lengths (fully symbolic geometry in 1-d and in the thorough tier)",
+        "line sampling in more than one dimension: symbolic origin and end points, concrete anisotropic edge lengths (fully symbolic geometry in 1-d; with symbolic edges the 2-d configurations did not finish within an hour)",
     ],
     outside=["NaN/inf values", "n > 4 per axis", "string/ object dtypes"],
 )
@@ -570,8 +570,12 @@ def tasks(tier):
     for n, nv in ([((3,), 1), ((2, 2), 2), ((2, 1, 2), 1)] if q else [((4,), 1), ((3,), 2), ((3, 2), 2), ((2, 3), 1), ((2, 2, 2), 3), ((2, 1, 2, 1), 1)]):
         t.append(dict(harness="h_sample", cfg=dict(n=list(n), nvdim=nv), limits=dict(max_paths=20000, wall_budget=900)))
     # lines
-    for n, nv, pts in ([((2,), 1, 3), ((2, 2), 2, 2), ((2, 1), 3, 3)] if q else [((3,), 1, 4), ((2,), 2, 5), ((2, 2), 2, 3), ((2, 1, 2), 3, 2), ((3, 2), 1, 2)]):
-        t.append(dict(harness="h_line", cfg=dict(n=list(n), nvdim=nv, points=pts, labels="custom" if nv > 1 and pts % 2 else "default", **(dict(edges=[1.5, 0.5] if n == (2, 2) else [0.75, 2.0]) if q and len(n) == 2 else {})),
+    EDGES = {(2, 2): [1.5, 0.5], (2, 1): [0.75, 2.0], (3, 2): [0.375, 2.5], (3, 3): [3.0, 0.75], (2, 1, 2): [1.0, 0.25, 3.5]}
+    for n, nv, pts in ([((2,), 1, 3), ((2, 2), 2, 2), ((2, 1), 3, 3)] if q else [((3,), 1, 4), ((2,), 2, 5), ((2, 2), 2, 3), ((2, 1, 2), 3, 2), ((3, 2), 1, 3), ((3, 3), 1, 2)]):
+        # more than one dimension: symbolic origin and end points on concrete anisotropic edge lengths (with symbolic edges every
+        # index computation is a quotient of two symbolic terms; those configurations did not finish within an hour)
+        t.append(dict(harness="h_line", cfg=dict(n=list(n), nvdim=nv, points=pts, labels="custom" if nv > 1 and pts % 2 else "default",
+                                                 **(dict(edges=EDGES[tuple(n)]) if len(n) > 1 else {})),
                       limits=dict(max_paths=20000, wall_budget=900 if q else 3300)))
         t.append(dict(harness="h_line", cfg=dict(n=list(n), nvdim=nv, points=pts, outside=len(n))))
     # source fields (concrete, pairwise non-commensurate geometry; symbolic values)
